@@ -63,7 +63,7 @@ func runC06(c *Ctx) {
 					return "UPD"
 				}
 				if ex, ok := rv.V.(*ssa.Extract); ok && ex.Index == 1 {
-					if lk, ok := ex.Tuple.(*ssa.Lookup); ok && lk.CommaOk && lk.X == updatedParam {
+					if lk, ok := ex.Tuple.(*ssa.Lookup); ok && lk.CommaOk && e.Resolve(st, RV{rv.F, lk.X}).V == updatedParam {
 						return "FOUND"
 					}
 				}
@@ -185,40 +185,42 @@ func runC06(c *Ctx) {
 			}
 			cf := mc.Fn.(*ssa.Function)
 			c.Analysed(fnName(cf))
-			for _, ci := range callsIn(cf) {
-				if staticCallee(ci.Common()) != remQ {
-					continue
-				}
-				args := ci.Common().Args
-				res := func(v ssa.Value) ssa.Value {
-					// free variable (or its load) -> binding in AddQuery -> (cell's single store)
-					i := freeVarIndex(cf, v)
-					if i < 0 {
-						return v
-					}
-					b := mc.Bindings[i]
-					if al, isAl := b.(*ssa.Alloc); isAl {
+			norm := func(v ssa.Value) ssa.Value {
+				if u, isU := v.(*ssa.UnOp); isU {
+					if al, isAl := u.X.(*ssa.Alloc); isAl {
 						if s := singleStore(al); s != nil {
 							return s
 						}
 					}
-					return b
 				}
-				norm := func(v ssa.Value) ssa.Value {
-					if u, isU := v.(*ssa.UnOp); isU {
-						if al, isAl := u.X.(*ssa.Alloc); isAl {
-							if s := singleStore(al); s != nil {
-								return s
-							}
-						}
+				return v
+			}
+			// path-based (helpers the closure delegates to are entered): every removeQuery call gets
+			// the query and client values that addQuery was given
+			isRem := lbl("call:" + fnName(remQ))
+			e := &PPA{Watch: isRem}
+			e.RunClosure(mc)
+			c.Paths += len(e.Paths)
+			nCalls := 0
+			all := true
+			for i := range e.Paths {
+				p := &e.Paths[i]
+				for j := range p.Trace {
+					ev := &p.Trace[j]
+					if !isRem(ev) || len(ev.Args) != 3 || len(addArgs) != 3 {
+						continue
 					}
-					return v
-				}
-				if len(args) == 3 && len(addArgs) == 3 {
-					q, cl := res(args[1]), res(args[2])
-					ok = q == norm(addArgs[1]) && cl == norm(addArgs[2])
+					nCalls++
+					q, cl := norm(ev.Args[1].V), norm(ev.Args[2].V)
+					if q != norm(addArgs[1]) || cl != norm(addArgs[2]) {
+						all = false
+					}
 					detail = fmt.Sprintf("addQuery(%s, %s) / removeQuery(%s, %s)", Expr(addArgs[1]), Expr(addArgs[2]), Expr(q), Expr(cl))
 				}
+			}
+			ok = all && nCalls > 0
+			if nCalls == 0 {
+				detail = "the remove function never reaches removeQuery"
 			}
 		})
 		c.Check(ok, "C06.same-key", fnName(AddQuery), "remove uses the registration's key", P.Pos(AddQuery.Pos()), detail)
@@ -382,22 +384,65 @@ func runC06(c *Ctx) {
 			}
 		}
 		c.Floor("C06.paths-agree/UpdateNotification-callers", nCallers, 1)
-		// snapshot path via CompletePath
+		// snapshot path via CompletePath (the Query call may sit in a helper the walk is delegated to)
 		n := 0
-		for _, ci := range callsIn(procSub) {
-			if calleeName(ci.Common()) == "(*cache.Cache).Query" {
-				n++
-				src := ci.Common().Args[2]
-				okCP := false
-				// fullPath is a captured/local variable assigned from CompletePath
-				for _, s := range storedValues(src) {
-					if ex, ok := s.(*ssa.Extract); ok && isCallNamed(ex.Tuple, "path.CompletePath") {
-						okCP = true
+		fromCP := func(src ssa.Value) bool {
+			for _, s := range storedValues(src) {
+				if ex, ok := s.(*ssa.Extract); ok && isCallNamed(ex.Tuple, "path.CompletePath") {
+					return true
+				}
+			}
+			if ex, ok := src.(*ssa.Extract); ok && isCallNamed(ex.Tuple, "path.CompletePath") {
+				return true
+			}
+			return false
+		}
+		var scanQ func(g *ssa.Function, d int)
+		seenQ := map[*ssa.Function]bool{}
+		scanQ = func(g *ssa.Function, d int) {
+			if seenQ[g] || d > 2 {
+				return
+			}
+			seenQ[g] = true
+			for _, h := range withAnon(g) {
+				for _, ci := range callsIn(h) {
+					cal := staticCallee(ci.Common())
+					if calleeName(ci.Common()) == "(*cache.Cache).Query" {
+						n++
+						src := ci.Common().Args[2]
+						okCP := fromCP(src)
+						if pr, isP := src.(*ssa.Parameter); isP && !okCP && g != procSub {
+							// the helper's parameter: judged at its call sites in the walk
+							idx := -1
+							for i, pp := range g.Params {
+								if pp == pr {
+									idx = i
+								}
+							}
+							okCP = idx >= 0
+							sites := 0
+							for _, pf := range withAnon(procSub) {
+								for _, pc := range callsIn(pf) {
+									if staticCallee(pc.Common()) == g && idx < len(pc.Common().Args) {
+										sites++
+										if !fromCP(pc.Common().Args[idx]) {
+											okCP = false
+										}
+									}
+								}
+							}
+							okCP = okCP && sites > 0
+						}
+						c.Check(okCP, "C06.paths-agree", fnName(g), "snapshot query path comes from path.CompletePath", P.Pos(ci.Pos()), Expr(src))
+						continue
+					}
+					if cal != nil && cal.Pkg == procSub.Pkg && len(cal.Blocks) > 0 {
+						scanQ(cal, d+1)
 					}
 				}
-				c.Check(okCP, "C06.paths-agree", fnName(procSub), "snapshot query path comes from path.CompletePath", P.Pos(ci.Pos()), Expr(src))
 			}
 		}
+		scanQ(procSub, 0)
 		c.Floor("C06.paths-agree/snapshot", n, 1)
 	}
 }
